@@ -694,9 +694,11 @@ def denoteKids (c : DCtx) (isComp : Bool) (children : List Node) (vslots : Optio
       | _ => S "kids" [] items
     else
       match e with
-      | .mk .fnExpr _ _ => S "slots" [] [S "p" ["default"] [e]]
-      | .mk .arrow _ _ => S "slots" [] [S "p" ["default"] [e]]
-      | .mk .object _ [.mk .list _ props] => S "slots" [] (slotsEntries props)
+      -- a single function child is the `default` slot itself, a single object literal is the slots object;
+      -- `v-slots` entries are merged beside them (C03)
+      | .mk .fnExpr _ _ => S "slots" [] (S "p" ["default"] [e] :: vslotsEntries vslots)
+      | .mk .arrow _ _ => S "slots" [] (S "p" ["default"] [e] :: vslotsEntries vslots)
+      | .mk .object _ [.mk .list _ props] => S "slots" [] (slotsEntries props ++ vslotsEntries vslots)
       | .mk .ident _ _ => if c.o.enableObjectSlots then S "slotcond" [] [e, wrapped] else wrapped
       | .mk .call ("usr" :: _) _ => if c.o.enableObjectSlots then S "slotcond" [] [e, wrapped] else wrapped
       | _ => wrapped
